@@ -234,3 +234,42 @@ package fun
 //@   ensures !held(mtx) && calls(of) == old(calls(of)) + 1
 //@   ensures-panic !held(mtx)
 //@   panics when true
+
+// Retry(n): at most n attempts; the first nil attempt ends the retry with nil.
+//@ func (Worker).Retry$1
+//@   props C15
+//@   option noframe
+//@   requires wf != nil
+//@   ensures atmost: calls(wf) <= old(calls(wf)) + (n > 0 ? n : 0)
+//@   ensures attempted: result != nil ==> calls(wf) > old(calls(wf))
+//@   loop 1 invariant 0 <= i && (n > 0 ==> i <= n) && calls(wf) == old(calls(wf)) + i && (err != nil ==> i > 0)
+
+// PreHook: the hook runs (exactly once) before the worker; PostHook: the hook
+// runs exactly once after the worker returned.
+//@ func (Worker).PreHook$1
+//@   props C15
+//@   option calls-after wf op
+//@   requires wf != nil && op != nil && wf != op
+//@   ensures calls(wf) == old(calls(wf)) + 1 && calls(op) == old(calls(op)) + 1
+
+//@ func (Worker).PostHook$1
+//@   props C15
+//@   option calls-after op wf
+//@   requires wf != nil && op != nil && wf != op
+//@   ensures calls(wf) == old(calls(wf)) + 1 && calls(op) == old(calls(op)) + 1
+
+// Waiters: WaitChannel(ch) returns only after a receive on ch became possible
+// (a value was sent or ch was closed) or its context is done. Operation.Launch
+// returns a waiter on the signal channel of the background execution (which
+// Signal closes in a deferred position of the goroutine, after the operation
+// returned): it does not complete before the background execution has, unless
+// its own context ended.
+//@ func WaitChannel$1
+//@   props C15
+//@   requires ctx != nil
+//@   ensures recvready(ch) || done(ctx)
+
+//@ func (Operation).Launch$1
+//@   props C15
+//@   requires ctx != nil
+//@   ensures waited: recvready(sig) || done(ctx)
